@@ -16,6 +16,10 @@ class C13(Prop):
         if ctx:
             w = max(len(r) for r in rows)
             if ctxpos == 'right': allrows = gens.overlay(allrows, ctx, k + w + 2, n)
+            elif ctxpos == 'left':
+                # unrelated text (possibly double width) on one row of the drawing, to its left, two or more blank columns away
+                j = min(1, len(rows) - 1); pre = ctx[0]
+                if k - row_cols(pre) >= 2: allrows[n + j] = pre + ' ' * (k - row_cols(pre)) + rows[j]
             else: allrows = gens.overlay(allrows, ctx, k, n + len(rows) + 1)
         text = '\n'.join(allrows)
         return Item('circle%d' % idx, {'main': Run(text, '', 'settings')},
@@ -29,6 +33,8 @@ class C13(Prop):
             out.append(self.make(i, rows, 0, 0, None, None))
             for _ in range(per):
                 out.append(self.make(i, rows, rng.randint(0, 60), rng.randint(0, 40), rng.choice(ctxs), rng.choice(['right', 'below'])))
+            for ctx in (['中'], ['漢字 x'], ['ab']):
+                out.append(self.make(i, rows, rng.randint(8, 30), rng.randint(0, 5), ctx, 'left'))
         return out
     def item_from_json(self, j): return item_from_json(None, j)
     def oracle(self, it):
